@@ -20,6 +20,10 @@ class UpstreamErr(Exception):
     pass
 
 
+class StartErr(Exception):
+    pass
+
+
 class Member:
     """A member servlet by contract; `threads` workers share its queues."""
     input_queue_type = 'thread'
@@ -30,6 +34,8 @@ class Member:
         self.scn, self.k, self.threads = scn, k, threads
 
     def start(self, q_in, q_out):
+        if self.scn.start_fail and choose(f'sfail{self.scn.cycle}_{self.k}', 2) == 1:
+            raise StartErr('start', self.k)   # a worker of this member failed to initialise: nothing of it is left running
         self._q_in, self._q_out = q_in, q_out
         self._ts = [SThread(target=self._work, args=(j,), name=f'member{self.k}_{j}') for j in range(self.threads)]
         for t in self._ts:
@@ -128,12 +134,13 @@ class EnsembleScn(Scenario):
     modules = ['mpservice._queues', 'mpservice.threading', 'mpservice.mpserver._servlet']
 
     def __init__(self, kind='ensemble', members=2, requests=2, fail_fast=True, member_fail=True, upstream_fail=False,
-                 member_threads=1, cycles=1):
+                 member_threads=1, cycles=1, start_fail=False):
         self.kind, self.members, self.requests = kind, members, requests
         self.fail_fast, self.member_fail, self.upstream_fail = fail_fast, member_fail, upstream_fail
         self.member_threads, self.cycles = member_threads, cycles
+        self.start_fail, self.cycle = start_fail, 0
         self.params = dict(kind=kind, members=members, requests=requests, fail_fast=fail_fast, member_fail=member_fail,
-                           upstream_fail=upstream_fail, member_threads=member_threads, cycles=cycles)
+                           upstream_fail=upstream_fail, member_threads=member_threads, cycles=cycles, start_fail=start_fail)
         self.caps = {'queue': requests * members + members + 4}
 
     def extra_patches(self):
@@ -212,8 +219,24 @@ class EnsembleScn(Scenario):
             return None
 
         for cyc in range(self.cycles):
+            self.cycle = cyc
+            if self.cycles > 1:
+                from engine_b.stubs import _rt
+                _rt().current_ctx().extra['ns'] = f'c{cyc}'   # names of this cycle's objects do not depend on the previous one
             qin, qout = STQueue(), STQueue()
-            servlet.start(qin, qout)
+            try:
+                servlet.start(qin, qout)
+            except Abort:
+                raise
+            except StartErr as e:
+                # all-or-nothing: the error is the first failing member's; the members started before it have been stopped
+                # (a member thread left behind is a deadlock / leftover state), and the servlet can be started again
+                first = next((k for k in range(M) if scn.start_fail and choose(f'sfail{cyc}_{k}', 2) == 1), None)
+                if first is None or e.args != ('start', first):
+                    return f'start-raised-wrong-error: {e!r}, first failing member {first}'
+                continue
+            if scn.start_fail and any(choose(f'sfail{cyc}_{k}', 2) == 1 for k in range(M)):
+                return 'start-succeeded-although-a-member-failed'
             for i in range(N):
                 if upstream(i):
                     try:
